@@ -317,6 +317,10 @@ def r4_static_inventory(ctx):
                     v = peel(fb.expr_rvalue(st['r'], b, i))
                     if (v[0] == 'call' and v[1].endswith('BufferContext::new')) or (v[0] == 'agg' and 'BufferContext' in str(v[1])) or v[0] == 'constdef':
                         whole = True
+        for c in fb.calls():
+            # `mem::replace(&mut *ctx, BufferContext::new())` / `mem::take(&mut *ctx)`
+            if c.name in ('std::mem::replace', 'std::mem::take') and c.argtys and c.argtys[0].replace(' ', '').endswith('mutdes::net::runtime::ctx::BufferContext'):
+                whole = True
         from .C03 import _buffer_container_types
         conts = _buffer_container_types(P)
         emptied = any(c.name.split('::')[-1] in ('clear', 'drain', 'take', 'truncate') and c.argtys and
